@@ -20,7 +20,10 @@ fn main() {
         usage();
     }
     let property = args[1].clone();
-    let mut tier = std::env::var("VERIF_TIER").ok().filter(|t| t == "quick" || t == "thorough").unwrap_or_else(|| "quick".into());
+    let mut tier = std::env::var("VERIF_TIER")
+        .ok()
+        .filter(|t| t == "quick" || t == "thorough")
+        .unwrap_or_else(|| "quick".into());
     let mut replay_file: Option<PathBuf> = None;
     let mut i = 2;
     while i < args.len() {
@@ -28,21 +31,34 @@ fn main() {
             "quick" | "thorough" => tier = args[i].clone(),
             "--replay" => {
                 i += 1;
-                replay_file = Some(PathBuf::from(args.get(i).cloned().unwrap_or_else(|| usage())));
+                replay_file = Some(PathBuf::from(
+                    args.get(i).cloned().unwrap_or_else(|| usage()),
+                ));
             }
             _ => usage(),
         }
         i += 1;
     }
-    let seed: u64 = std::env::var("VERIF_SEED").ok().and_then(|s| s.parse().ok()).unwrap_or(1);
+    let seed: u64 = std::env::var("VERIF_SEED")
+        .ok()
+        .and_then(|s| s.parse().ok())
+        .unwrap_or(1);
     let threads: usize = std::env::var("VERIF_THREADS")
         .ok()
         .and_then(|s| s.parse().ok())
-        .unwrap_or_else(|| std::thread::available_parallelism().map(|n| n.get()).unwrap_or(4).min(16));
+        .unwrap_or_else(|| {
+            std::thread::available_parallelism()
+                .map(|n| n.get())
+                .unwrap_or(4)
+                .min(16)
+        });
     let ctx = Ctx::from_env();
     for p in [&ctx.hdwallet, &ctx.threadsim, &ctx.shim] {
         if !p.exists() {
-            eprintln!("harness error: {} is missing (run /verif/bin/setup)", p.display());
+            eprintln!(
+                "harness error: {} is missing (run /verif/bin/setup)",
+                p.display()
+            );
             std::process::exit(2);
         }
     }
@@ -51,14 +67,42 @@ fn main() {
     } else {
         let quick = tier == "quick";
         let (plan, level): (Box<dyn Plan>, &str) = match property.as_str() {
-            "C12" => (Box::new(C12Plan { seed, seeded: if quick { 2_500 } else { 120_000 } }), "exploration"),
-            "C16" => (Box::new(C16Plan { seed, seeded: if quick { 6_000 } else { 250_000 } }), "exploration"),
-            "C18" => (Box::new(C18Plan { seed, seeded: if quick { 3_000 } else { 150_000 } }), "exploration"),
-            "C17" => (
-                Box::new(C17Plan { seed, seeded_new: if quick { 1_500 } else { 60_000 }, seeded_crash: if quick { 20_000 } else { 1_000_000 } }),
+            "C12" => (
+                Box::new(C12Plan {
+                    seed,
+                    seeded: if quick { 2_500 } else { 120_000 },
+                }),
                 "exploration",
             ),
-            "C19" => (Box::new(HexPlan { seed, seeded: if quick { 12_000 } else { 400_000 } }), "exploration"),
+            "C16" => (
+                Box::new(C16Plan {
+                    seed,
+                    seeded: if quick { 6_000 } else { 250_000 },
+                }),
+                "exploration",
+            ),
+            "C18" => (
+                Box::new(C18Plan {
+                    seed,
+                    seeded: if quick { 3_000 } else { 150_000 },
+                }),
+                "exploration",
+            ),
+            "C17" => (
+                Box::new(C17Plan {
+                    seed,
+                    seeded_new: if quick { 1_500 } else { 60_000 },
+                    seeded_crash: if quick { 20_000 } else { 1_000_000 },
+                }),
+                "exploration",
+            ),
+            "C19" => (
+                Box::new(HexPlan {
+                    seed,
+                    seeded: if quick { 12_000 } else { 400_000 },
+                }),
+                "exploration",
+            ),
             _ => {
                 eprintln!("harness error: no check for property {property}");
                 std::process::exit(2);
